@@ -27,6 +27,13 @@ def Expr.noLayoutE : Expr → Prop
   | .binding _ v _ b a => v.noLayoutE ∧ noLayout b ∧ noLayout a
   | .paren _ _ _ _ _ b a => noLayout b ∧ noLayout a
   | .app _ _ _ _ b a => noLayout b ∧ noLayout a
+  | .wth _ _ _ _ _ b a => noLayout b ∧ noLayout a
+  | .asrt _ _ _ _ b a => noLayout b ∧ noLayout a
+  | .sel _ _ _ _ b a => noLayout b ∧ noLayout a
+  | .selOr _ _ _ _ _ _ _ b a => noLayout b ∧ noLayout a
+  | .lam _ _ _ _ _ b a => noLayout b ∧ noLayout a
+  | .un _ _ _ _ b a => noLayout b ∧ noLayout a
+  | .bin _ _ _ _ _ b a => noLayout b ∧ noLayout a
 def allNoLayout : List Expr → Prop
   | [] => True
   | e :: rest => e.noLayoutE ∧ allNoLayout rest
@@ -55,6 +62,13 @@ theorem noLayoutE_before {e : Expr} (h : e.noLayoutE) : noLayout e.before := by
   | binding n v g b a => exact h.2.1
   | paren v lg tg lb tb b a => exact h.1
   | app n x g fa b a => exact h.1
+  | wth e bd c g s b a => exact h.1
+  | asrt c bd x y b a => exact h.1
+  | sel e ats g ab b a => exact h.1
+  | selOr e ats g ab d dg db b a => exact h.1
+  | lam n c g k bd b a => exact h.1
+  | un o e g bt b a => exact h.1
+  | bin o l r x y b a => exact h.1
 theorem noLayoutE_after {e : Expr} (h : e.noLayoutE) : noLayout e.after := by
   cases e with
   | leaf k t b a => exact h.2
@@ -63,6 +77,13 @@ theorem noLayoutE_after {e : Expr} (h : e.noLayoutE) : noLayout e.after := by
   | binding n v g b a => exact h.2.2
   | paren v lg tg lb tb b a => exact h.2
   | app n x g fa b a => exact h.2
+  | wth e bd c g s b a => exact h.2
+  | asrt c bd x y b a => exact h.2
+  | sel e ats g ab b a => exact h.2
+  | selOr e ats g ab d dg db b a => exact h.2
+  | lam n c g k bd b a => exact h.2
+  | un o e g bt b a => exact h.2
+  | bin o l r x y b a => exact h.2
 theorem noLayoutE_setBefore {e : Expr} (h : e.noLayoutE) {b : List Trivia} (hb : noLayout b) : (e.setBefore b).noLayoutE := by
   cases e with
   | leaf k t b' a => exact ⟨hb, h.2⟩
@@ -71,6 +92,13 @@ theorem noLayoutE_setBefore {e : Expr} (h : e.noLayoutE) {b : List Trivia} (hb :
   | binding n v g b' a => exact ⟨h.1, hb, h.2.2⟩
   | paren v lg tg lb tb b' a => exact ⟨hb, h.2⟩
   | app n x g fa b' a => exact ⟨hb, h.2⟩
+  | wth e bd c g s b' a => exact ⟨hb, h.2⟩
+  | asrt c bd x y b' a => exact ⟨hb, h.2⟩
+  | sel e ats g ab b' a => exact ⟨hb, h.2⟩
+  | selOr e ats g ab d dg db b' a => exact ⟨hb, h.2⟩
+  | lam n c g k bd b' a => exact ⟨hb, h.2⟩
+  | un o e g bt b' a => exact ⟨hb, h.2⟩
+  | bin o l r x y b' a => exact ⟨hb, h.2⟩
 theorem noLayoutE_addAfter {e : Expr} (h : e.noLayoutE) {a : List Trivia} (ha : noLayout a) : (e.addAfter a).noLayoutE := by
   have haa := noLayout_append.mpr ⟨noLayoutE_after h, ha⟩
   cases e with
@@ -80,6 +108,13 @@ theorem noLayoutE_addAfter {e : Expr} (h : e.noLayoutE) {a : List Trivia} (ha : 
   | binding n v g b a' => exact ⟨h.1, h.2.1, haa⟩
   | paren v lg tg lb tb b a' => exact ⟨h.1, haa⟩
   | app n x g fa b a' => exact ⟨h.1, haa⟩
+  | wth e bd c g s b a' => exact ⟨h.1, haa⟩
+  | asrt c bd x y b a' => exact ⟨h.1, haa⟩
+  | sel e ats g ab b a' => exact ⟨h.1, haa⟩
+  | selOr e ats g ab d dg db b a' => exact ⟨h.1, haa⟩
+  | lam n c g k bd b a' => exact ⟨h.1, haa⟩
+  | un o e g bt b a' => exact ⟨h.1, haa⟩
+  | bin o l r x y b a' => exact ⟨h.1, haa⟩
 
 theorem allNoLayout_append : ∀ {a b : List Expr}, allNoLayout a → allNoLayout b → allNoLayout (a ++ b)
   | [], _, _, hb => hb
@@ -252,6 +287,56 @@ theorem cst_noLayout : (c : Cst) → c.wf = true → containsNL c.flatten = fals
   | .app f cs g a, _, _, e, hp => by
     obtain ⟨n, x, g', fa, rfl⟩ := app_parse_shape hp
     exact ⟨noLayout_nil, noLayout_nil⟩
+  | .kw w c1 g1 h c2 g2 c3 g3 b, hwf, _, e, hp => by
+    obtain ⟨e', hpe, _, heb, hea, _⟩ := cst_parse_spec false (.kw w c1 g1 h c2 g2 c3 g3 b) hwf (fun h => by cases h)
+    rw [hp] at hpe; injection hpe with hpe; subst hpe
+    cases e with
+    | wth e bd c g s b' a' => simp only [Expr.before] at heb; simp only [Expr.after] at hea; subst heb; subst hea; exact ⟨noLayout_nil, noLayout_nil⟩
+    | asrt c bd x y b' a' => simp only [Expr.before] at heb; simp only [Expr.after] at hea; subst heb; subst hea; exact ⟨noLayout_nil, noLayout_nil⟩
+    | leaf k t b' a' => simp only [Expr.before] at heb; simp only [Expr.after] at hea; subst heb; subst hea; exact ⟨noLayout_nil, noLayout_nil⟩
+    | paren v lg tg lb tb b' a' => simp only [Expr.before] at heb; simp only [Expr.after] at hea; subst heb; subst hea; exact ⟨noLayout_nil, noLayout_nil⟩
+    | app n x g' fa b' a' => simp only [Expr.before] at heb; simp only [Expr.after] at hea; subst heb; subst hea; exact ⟨noLayout_nil, noLayout_nil⟩
+    | sel ee ats g' ab b' a' => simp only [Expr.before] at heb; simp only [Expr.after] at hea; subst heb; subst hea; exact ⟨noLayout_nil, noLayout_nil⟩
+    | selOr ee ats g' ab d dg db b' a' => simp only [Expr.before] at heb; simp only [Expr.after] at hea; subst heb; subst hea; exact ⟨noLayout_nil, noLayout_nil⟩
+    | lam nn cc g' kk bd b' a' => simp only [Expr.before] at heb; simp only [Expr.after] at hea; subst heb; subst hea; exact ⟨noLayout_nil, noLayout_nil⟩
+    | un oo ee g' bt b' a' => simp only [Expr.before] at heb; simp only [Expr.after] at hea; subst heb; subst hea; exact ⟨noLayout_nil, noLayout_nil⟩
+    | bin oo ll rr xx yy b' a' => simp only [Expr.before] at heb; simp only [Expr.after] at hea; subst heb; subst hea; exact ⟨noLayout_nil, noLayout_nil⟩
+    | list v m inn b' a' => simp only [Cst.parse] at hp; (repeat' split at hp) <;> first | cases hp | (injection hp with hp; (try split at hp) <;> cases hp)
+    | set v m r inn b' a' => simp only [Cst.parse] at hp; (repeat' split at hp) <;> first | cases hp | (injection hp with hp; (try split at hp) <;> cases hp)
+    | binding n v g' b' a' => simp only [Cst.parse] at hp; (repeat' split at hp) <;> first | cases hp | (injection hp with hp; (try split at hp) <;> cases hp)
+  | .sel e c1 g1 gd attrs, _, _, ex, hp => by
+    simp only [Cst.parse] at hp
+    cases hpe : e.parse with
+    | error err => rw [hpe] at hp; cases hp
+    | ok ee => rw [hpe] at hp; injection hp with hp; subst hp; exact ⟨noLayout_nil, noLayout_nil⟩
+  | .selOr e c1 g1 gd attrs c2 g2 g3 d, _, _, ex, hp => by
+    simp only [Cst.parse] at hp
+    cases hpe : e.parse with
+    | error err => rw [hpe] at hp; cases hp
+    | ok ee =>
+      rw [hpe] at hp
+      cases hpd : d.parse with
+      | error err => rw [hpd] at hp; cases hp
+      | ok de => rw [hpd] at hp; injection hp with hp; subst hp; exact ⟨noLayout_nil, noLayout_nil⟩
+  | .lam n c1 g1 c2 g2 b, _, _, ex, hp => by
+    simp only [Cst.parse] at hp
+    cases hpb : b.parse with
+    | error err => rw [hpb] at hp; cases hp
+    | ok be => rw [hpb] at hp; injection hp with hp; subst hp; exact ⟨noLayout_nil, noLayout_nil⟩
+  | .un op c g e, _, _, ex, hp => by
+    simp only [Cst.parse] at hp
+    cases hpe : e.parse with
+    | error err => rw [hpe] at hp; cases hp
+    | ok ee => rw [hpe] at hp; injection hp with hp; subst hp; exact ⟨noLayout_nil, noLayout_nil⟩
+  | .bin l c1 g1 op c2 g2 r, _, _, ex, hp => by
+    simp only [Cst.parse] at hp
+    cases hpl : l.parse with
+    | error err => rw [hpl] at hp; cases hp
+    | ok le =>
+      rw [hpl] at hp
+      cases hpr : r.parse with
+      | error err => rw [hpr] at hp; cases hp
+      | ok re => rw [hpr] at hp; injection hp with hp; subst hp; exact ⟨noLayout_nil, noLayout_nil⟩
 theorem items_noLayout : (its : Items) → ∀ (m : Mode) (cg : Text) (st st' : SeqSt), its.wf m cg = true →
     containsNL (its.flatten ++ cg) = false → its.parseSeq m st = .ok st' →
     allNoLayout st.items ∧ noLayout st.before → allNoLayout st'.items ∧ noLayout st'.before
@@ -339,6 +424,13 @@ theorem noLayoutE_effAfter {e : Expr} (h : e.noLayoutE) : noLayout (e.effAfter f
     exact noLayout_append.mpr ⟨noLayoutE_after h.1, h.2.2⟩
   | paren v lg tg lb tb b a => exact h.2
   | app n x g fa b a => exact h.2
+  | wth e bd c g s b a => exact h.2
+  | asrt c bd x y b a => exact h.2
+  | sel e ats g ab b a => exact h.2
+  | selOr e ats g ab d dg db b a => exact h.2
+  | lam n c g k bd b a => exact h.2
+  | un o e g bt b a => exact h.2
+  | bin o l r x y b a => exact h.2
 
 theorem ok_effAfter {e : Expr} (h : e.ok) : TrivOk (e.effAfter false) := by
   cases e with
@@ -350,6 +442,13 @@ theorem ok_effAfter {e : Expr} (h : e.ok) : TrivOk (e.effAfter false) := by
     exact trivOk_append (ok_after h.2.1) h.2.2.2
   | paren v lg tg lb tb b a => exact h.2.2
   | app n x g fa b a => exact h.2.2.2.2
+  | wth e bd c g s b a => exact h.2.2.2.2.2
+  | asrt c bd x y b a => exact h.2.2.2.2.2
+  | sel e ats g ab b a => exact h.2.2.2.2.2
+  | selOr e ats g ab d dg db b a => exact h.2.2.2.2.2.2.2
+  | lam n c g k bd b a => exact h.2.2.2.2
+  | un o e g bt b a => exact h.2.2.2.2
+  | bin o l r x y b a => exact h.2.2.2.2
 
 theorem allClosed_of_noLayout : ∀ {es : List Expr}, allOk es → allNoLayout es → allClosed es
   | [], _, _ => trivial
@@ -362,8 +461,15 @@ def Expr.flatClosed : Expr → Prop
   | .list v ml _ _ _ => (ml = false → allClosed v) ∧ allFlatClosed v
   | .set v ml _ _ _ _ => (ml = false → allClosed v) ∧ allFlatClosed v
   | .binding _ v _ _ _ => v.flatClosed
-  | .paren .. => True
-  | .app .. => True
+  | .paren v _ _ _ _ _ _ => v.flatClosed
+  | .app n x _ _ _ _ => n.flatClosed ∧ x.flatClosed
+  | .wth env body _ _ _ _ _ => env.flatClosed ∧ body.flatClosed
+  | .asrt .. => True
+  | .sel e _ _ _ _ _ => e.flatClosed
+  | .selOr e _ _ _ d _ _ _ _ => e.flatClosed ∧ d.flatClosed
+  | .lam _ _ _ _ body _ _ => body.flatClosed
+  | .un _ e _ _ _ _ => e.flatClosed
+  | .bin _ l r _ _ _ _ => l.flatClosed ∧ r.flatClosed
 def allFlatClosed : List Expr → Prop
   | [] => True
   | e :: rest => e.flatClosed ∧ allFlatClosed rest
@@ -462,12 +568,106 @@ theorem cst_flat : (c : Cst) → c.wf = true → ∀ (e : Expr), c.parse = .ok e
       rw [hp0] at hpe; injection hpe with hpe; subst hpe
       have hnl := cst_noLayout (.set isRec rg its cg) hwf0 (by simpa using hml) _ hp0
       exact allClosed_of_noLayout hok.1 hnl.1
-  | .paren its cg, _, e, hp => by
-    obtain ⟨v, lg, tg, lb, tb, rfl⟩ := paren_parse_shape hp
-    trivial
-  | .app f cs g a, _, e, hp => by
-    obtain ⟨n, x, g', fa, rfl⟩ := app_parse_shape hp
-    trivial
+  | .paren its cg, hwf, e, hp => by
+    simp only [Cst.wf, Bool.and_eq_true, beq_iff_eq] at hwf
+    simp only [Cst.parse] at hp
+    cases hps : its.parseSeq .paren {} with
+    | error err => rw [hps] at hp; cases hp
+    | ok st' =>
+      rw [hps] at hp
+      simp only at hp
+      have hst := items_flat its .paren cg {} st' hwf.1.1 hps trivial
+      have hf := finishSeq_flatClosed st' none (!its.isNil) hst
+      cases hr : (finishSeq st' none (!its.isNil)).1 with
+      | nil => rw [hr] at hp; cases hp
+      | cons v tl =>
+        cases tl with
+        | cons w tl' => rw [hr] at hp; cases hp
+        | nil =>
+          rw [hr] at hp hf
+          injection hp with hp; subst hp
+          exact hf.1
+  | .app f cs g a, hwf, e, hp => by
+    simp only [Cst.wf, Bool.and_eq_true] at hwf
+    obtain ⟨⟨⟨hfw, _⟩, _⟩, haw⟩ := hwf
+    simp only [Cst.parse] at hp
+    cases hpf : f.parse with
+    | error err => rw [hpf] at hp; cases hp
+    | ok fe =>
+      rw [hpf] at hp
+      cases hpa : a.parse with
+      | error err => rw [hpa] at hp; cases hp
+      | ok ae =>
+        rw [hpa] at hp; injection hp with hp; subst hp
+        exact ⟨cst_flat f hfw fe hpf, flatClosed_setBefore (cst_flat a haw ae hpa) _⟩
+  | .kw w c1 g1 h c2 g2 c3 g3 b, hwf, e, hp => by
+    simp only [Cst.wf, Bool.and_eq_true, List.isEmpty_iff] at hwf
+    obtain ⟨⟨⟨⟨⟨⟨⟨hc1, _⟩, hhw⟩, hc2⟩, _⟩, hc3⟩, _⟩, hbw⟩ := hwf
+    subst hc1; subst hc2; subst hc3
+    simp only [Cst.parse] at hp
+    cases hph : h.parse with
+    | error err => rw [hph] at hp; cases hp
+    | ok he =>
+      rw [hph] at hp
+      cases hpb : b.parse with
+      | error err => rw [hpb] at hp; cases hp
+      | ok be =>
+        rw [hpb] at hp; injection hp with hp; subst hp
+        split
+        · rw [withFromCst_shape]
+          refine ⟨cst_flat h hhw he hph, ?_⟩
+          split
+          · exact cst_flat b hbw be hpb
+          · exact flatClosed_setBefore (cst_flat b hbw be hpb) _
+        · unfold asrtFromCst; trivial
+  | .sel e c1 g1 gd attrs, hwf, ex, hp => by
+    simp only [Cst.wf, Bool.and_eq_true] at hwf
+    simp only [Cst.parse] at hp
+    cases hpe : e.parse with
+    | error err => rw [hpe] at hp; cases hp
+    | ok ee => rw [hpe] at hp; injection hp with hp; subst hp; exact cst_flat e hwf.1.1.1.1.1 ee hpe
+  | .selOr e c1 g1 gd attrs c2 g2 g3 d, hwf, ex, hp => by
+    simp only [Cst.wf, Bool.and_eq_true] at hwf
+    simp only [Cst.parse] at hp
+    cases hpe : e.parse with
+    | error err => rw [hpe] at hp; cases hp
+    | ok ee =>
+      rw [hpe] at hp
+      cases hpd : d.parse with
+      | error err => rw [hpd] at hp; cases hp
+      | ok de =>
+        rw [hpd] at hp; injection hp with hp; subst hp
+        exact ⟨cst_flat e hwf.1.1.1.1.1.1.1.1.1 ee hpe, cst_flat d hwf.2 de hpd⟩
+  | .lam n c1 g1 c2 g2 b, hwf, ex, hp => by
+    simp only [Cst.wf, Bool.and_eq_true] at hwf
+    simp only [Cst.parse] at hp
+    cases hpb : b.parse with
+    | error err => rw [hpb] at hp; cases hp
+    | ok be =>
+      rw [hpb] at hp; injection hp with hp; subst hp
+      unfold lamFromCst
+      show Expr.flatClosed (if _ then be else _)
+      split
+      · exact cst_flat b hwf.2 be hpb
+      · exact flatClosed_setBefore (cst_flat b hwf.2 be hpb) _
+  | .un op c g e, hwf, ex, hp => by
+    simp only [Cst.wf, Bool.and_eq_true] at hwf
+    simp only [Cst.parse] at hp
+    cases hpe : e.parse with
+    | error err => rw [hpe] at hp; cases hp
+    | ok ee => rw [hpe] at hp; injection hp with hp; subst hp; exact cst_flat e hwf.2 ee hpe
+  | .bin l c1 g1 op c2 g2 r, hwf, ex, hp => by
+    simp only [Cst.wf, Bool.and_eq_true] at hwf
+    simp only [Cst.parse] at hp
+    cases hpl : l.parse with
+    | error err => rw [hpl] at hp; cases hp
+    | ok le =>
+      rw [hpl] at hp
+      cases hpr : r.parse with
+      | error err => rw [hpr] at hp; cases hp
+      | ok re =>
+        rw [hpr] at hp; injection hp with hp; subst hp
+        exact ⟨cst_flat l hwf.1.1.1.1.1.1.1 le hpl, cst_flat r hwf.2 re hpr⟩
 theorem items_flat : (its : Items) → ∀ (m : Mode) (cg : Text) (st st' : SeqSt), its.wf m cg = true →
     its.parseSeq m st = .ok st' → allFlatClosed st.items → allFlatClosed st'.items
   | .nil, m, cg, st, st', _, hp, h => by
@@ -537,6 +737,31 @@ theorem inlineClean_of_flat : (e : Expr) → e.beforeFlatB = true → e.flatClos
     · rw [hml] at h1; cases h1
     · exact allFlat_of h1 (hf.1 hml)
   | .binding _ v _ _ _, h, hf => inlineClean_of_flat v h hf
+  | .paren v lg _ _ _ _ _, h, hf => by
+    simp only [Expr.beforeFlatB, Bool.and_eq_true, Bool.or_eq_true, List.isEmpty_iff] at h
+    refine ⟨fun hon => ?_, inlineClean_of_flat v h.2 hf⟩
+    rcases h.1 with h1 | h1
+    · rw [hon] at h1; cases h1
+    · exact h1
+  | .app n x g _ _ _, h, hf => by
+    simp only [Expr.beforeFlatB, Bool.and_eq_true, Bool.or_eq_true, List.isEmpty_iff] at h
+    refine ⟨fun hon => ?_, inlineClean_of_flat n h.1.2 hf.1, inlineClean_of_flat x h.2 hf.2⟩
+    rcases h.1.1 with h1 | h1
+    · rw [hon] at h1; cases h1
+    · exact h1
+  | .wth env body _ _ _ _ _, h, hf => by
+    simp only [Expr.beforeFlatB, Bool.and_eq_true] at h
+    exact ⟨inlineClean_of_flat env h.1 hf.1, inlineClean_of_flat body h.2 hf.2⟩
+  | .asrt .., h, _ => by simp [Expr.beforeFlatB] at h
+  | .sel e _ _ _ _ _, h, hf => inlineClean_of_flat e h hf
+  | .selOr e _ _ _ d _ _ _ _, h, hf => by
+    simp only [Expr.beforeFlatB, Bool.and_eq_true] at h
+    exact ⟨inlineClean_of_flat e h.1 hf.1, inlineClean_of_flat d h.2 hf.2⟩
+  | .lam _ _ _ _ body _ _, h, hf => inlineClean_of_flat body h hf
+  | .un _ e _ _ _ _, h, hf => inlineClean_of_flat e h hf
+  | .bin _ l r ogl rgl _ _, h, hf => by
+    simp only [Expr.beforeFlatB, Bool.and_eq_true, decide_eq_true_eq] at h
+    exact ⟨h.1.1.1, h.1.1.2, inlineClean_of_flat l h.1.2 hf.1, inlineClean_of_flat r h.2 hf.2⟩
 theorem allInlineClean_of_flat : (es : List Expr) → allBeforeFlatB es = true → allFlatClosed es → allInlineClean es
   | [], _, _ => trivial
   | e :: rest, h, hf => by
